@@ -114,9 +114,30 @@ def classify_reason(why):
     return ("unrelated", None)
 
 
-def coarse(code):
-    """what can be told apart on the real Deferred without knowing the context: callback / DeadReferenceError / other errback"""
-    return code if code in (O_RESULT, O_DEAD) else 0
+def delivered(f):
+    """what the caller can tell apart on the real Deferred without knowing the context: the CLASS of what was delivered.
+    callback -> 1; the remote failure (a CopiedFailure, or RemoteException wrapping one) -> 2, whatever class name it
+    carries (a remote Violation / DeadReferenceError IS the remote failure); local Violation -> 3; DeadReferenceError -> 4;
+    anything else -> 7.  The model's OViolation / OSendFail / OLocal are all delivered as foolscap.tokens.Violation
+    (they differ by the path that produced them, which the operation label records): lib/Requests.v `ocode` modulo that."""
+    if f is None:
+        return O_OTHER
+    from foolscap.tokens import RemoteException
+    if isinstance(f, call_mod.CopiedFailure) or f.check(RemoteException):
+        return O_REMOTE
+    if f.check(DeadReferenceError):
+        return O_DEAD
+    if f.check(Violation):
+        return O_VIOL
+    return O_OTHER
+
+
+def copied_failure():
+    """what ErrorUnslicer.receiveClose hands to request.fail(): the shadow of a remote Failure"""
+    cf = call_mod.CopiedFailure()
+    cf.setCopyableState(dict(type=b"builtins.ValueError", value=b"remote", traceback=b"Traceback unavailable\n",
+                             parents=[b"builtins.ValueError", b"builtins.Exception"]))
+    return cf
 
 
 class QT:
@@ -235,6 +256,7 @@ class Recorder:
         self.foreigns = []       # harness callables handed to the eventual queue
         self.is_twoway = []      # per handle
         self.fire_types = []     # per handle: exception class of every errback (None for a callback)
+        self.fire_cls = []       # per handle: delivered(...) of every firing: the class code compared with the models
         self.finish_why = None   # the Failure given to the finish() that disconnected the broker
         self.via_turn = []       # handles failed by a queued abandonAllRequests entry
         self.data_sig = None
@@ -246,7 +268,7 @@ class Recorder:
     # -- snapshots
     def snap(self):
         A = self.A
-        return (list(A.waitingForAnswers.keys()), [[coarse(c) for c in f] for f in self.fires], bool(A.disconnected),
+        return (list(A.waitingForAnswers.keys()), [list(f) for f in self.fire_cls], bool(A.disconnected),
                 list(self.evq), self.raised)
 
     def begin(self, op):
@@ -323,6 +345,7 @@ class Recorder:
         h = len(self.fires)
         self.fires.append([])
         self.fire_types.append([])
+        self.fire_cls.append([])
         self.is_twoway.append(twoway)
         self.window, self.window_added = h, False
         try:
@@ -342,33 +365,37 @@ class Recorder:
 
     def watch(self, d, h):
         """record every firing of an already created Deferred (maybeDeferred's) without consuming the result"""
-        fl, ft = self.fires[h], self.fire_types[h]
+        fl, ft, fc = self.fires[h], self.fire_types[h], self.fire_cls[h]
 
         def cb(r):
             fl.append(O_RESULT)
             ft.append(None)
+            fc.append(O_RESULT)
             return r
 
         def eb(f):
             fl.append(classify(f))
             ft.append(f.type)
+            fc.append(delivered(f))
             return f
         d.addCallbacks(cb, eb)
 
     def watch_attempts(self, d, h):
         """record every *invocation* of d.callback / d.errback (a second one would raise AlreadyCalledError inside
         Twisted and would otherwise be invisible), at the moment it happens"""
-        fl, ft = self.fires[h], self.fire_types[h]
+        fl, ft, fc = self.fires[h], self.fire_types[h], self.fire_cls[h]
         o_cb, o_eb = d.callback, d.errback
 
         def callback(res):
             fl.append(O_RESULT)
             ft.append(None)
+            fc.append(O_RESULT)
             return o_cb(res)
 
         def errback(f=None):
             fl.append(classify(f) if f is not None else O_OTHER)
             ft.append(f.type if f is not None else None)
+            fc.append(delivered(f))
             return o_eb(f)
         d.callback, d.errback = callback, errback
 
@@ -462,13 +489,14 @@ def recording(A):
                 rec.errors.append("queued fail ran out of order: %r vs queue %r" % (h, rec.evq))
             else:
                 rec.evq.pop(0)
+        elif lk and lk[1] == len(rec.trace) and lk[2] in ("AnswerUnslicer", "ErrorUnslicer") and delivered(why) == O_VIOL:
+            # reportViolation of either unslicer: a LOCAL Violation while the answer / the error is being received (a remote
+            # Violation arriving as the CopiedFailure of an error sequence is the remote failure, below)
+            op = ("AnswerViolation", lk[0])
         elif lk and lk[1] == len(rec.trace) and lk[2] == "ErrorUnslicer":
             op = ("Error", lk[0])
-        elif lk and lk[1] == len(rec.trace) and lk[2] == "AnswerUnslicer" and why.check(Violation):
-            op = ("AnswerViolation", lk[0])
         else:
-            code = classify(why)
-            op = ("Fail", h, {O_DEAD: O_DEAD, O_VIOL: O_SEND, O_OTHER: O_OTHER}[code])
+            op = ("Fail", h, {O_DEAD: O_DEAD, O_VIOL: O_SEND, O_REMOTE: O_REMOTE, O_OTHER: O_OTHER}[delivered(why)])
         idx = rec.begin(op)
         n0 = len(rec.fires[h])
         try:
@@ -1005,7 +1033,7 @@ def api_sequence(ops):
                         if op[0] == "Answer":
                             req.complete("result")
                         elif op[0] == "Error":
-                            req.fail(failure.Failure(ValueError("remote")))
+                            req.fail(copied_failure())
                         else:
                             req.fail(failure.Failure(Violation("in inbound method results")))
                     except Exception:       # the real callers are Deferred chains / the eventual queue: they log it
@@ -1027,7 +1055,7 @@ def api_sequence(ops):
                     else:
                         exc = {O_DEAD: DeadReferenceError("late"), O_SEND: Violation("cannot serialize")}.get(
                             op[2], RuntimeError("late failure"))
-                        reqs[0].fail(failure.Failure(exc))
+                        reqs[0].fail(copied_failure() if op[2] == O_REMOTE else failure.Failure(exc))
                 except Exception:
                     pass
             elif op[0] == "Enqueue":
